@@ -6,6 +6,16 @@ VERIF = os.path.dirname(os.path.abspath(__file__))
 
 # property id -> (level category, technique, level text, level note, design ref)
 CLAIMED = {
+    "C08": ("exploration",
+            "crash oracle: in-process panic capture for synchronous entry points, child-process death (inputs logged to disk before delivery) for layers running in library goroutines, plus a liveness probe after each batch",
+            "Hundreds of thousands of hostile inputs per run: random, structure-aware field mutations of genuine packets, contradiction sequences against reassembly state and byte-level mutations, fed to address/key/peer-id parsers, the five demultiplexers, P2PKE sessions in every handshake state and role, channels with 0-3 occupied slots, DHT handlers and cache calls, and through the harness's wire transport to fragswarm, mbapp (tell/ask/reply paths), multiplexers and p2pkeswarm; each layer must still pass a valid message afterwards.",
+            "The QUIC frame reader is exercised only through honest traffic in other checks (no raw hostile QUIC client was built); constructor/configuration panics are not judged.",
+            "DESIGN.md §4 C08"),
+    "C14": ("exploration",
+            "Go race detector (-race, reports parsed, de-duplicated and classified by access site) over high-contention workloads + buffer-ownership canary in every callback",
+            "The -race build runs, per stack, the ledger tell workload with replies from inside callbacks while other goroutines hammer LocalAddrs/MTU/ParseAddr/PublicKey/LookupPublicKey and Close races everything, the ask workload, and DHTNode/Cache calls from 8 goroutines; every callback checksums its buffer at entry and exit and scribbles it, and the ledger shows whether old contents ever surface.",
+            "Only executed interleavings are seen; reports with both access sites outside the library are recorded as external; a report whose sites are both in the harness fails the check as broken.",
+            "DESIGN.md §4 C14"),
     "C12": ("exploration",
             "lifecycle monitor: parked-goroutine detector on Close / blocked calls / post-close calls, causal epoch check for deliveries after Close, goroutine-set difference for leaks",
             "On every stack 0-16 goroutines are blocked in Receive/ServeAsk with background contexts while peers tell and ask (optionally replying from inside callbacks); Close at a seeded moment must return, unblock every blocked call with an error, make all later calls fail, never deliver a message created after it returned, tolerate a second Close, and after all swarms are closed no goroutine started by them may remain.",
